@@ -33,5 +33,5 @@ Step(A) == phase = 0 /\ phase' = 1 /\ A
 Init == vec = <<>> /\ phase = 0
 Next == Step(NextCodes \/ NextSides \/ NextFaults)
 NextR == Step(NextRandom)
-Emit == phase = 1 => PrintT(<<"VEC", ToJson(vec)>>)
+Emit == phase = 1 => PrintT("VEC " \o ToJson(vec))
 =============================================================================
